@@ -211,6 +211,43 @@ Example C20_order_example :
   bytes_cmp [65; 65535] [65; 65536] = Lt /\ cmp (encode_scalars [233]) (encode_scalars [122]) = Gt.
 Proof. vm_compute. repeat split. Qed.
 
+(* the hypotheses of the machine-level slice_ref theorems hold in a reachable state: pool[0] = "Aé€"
+   (buffer 1), pool[1], pool[2] its halves; the subset &pool[0][1..3] = "é" lies inside pool[1]'s
+   window and outside pool[2]'s *)
+Example C20_slice_ref_machine_example :
+  let s := fst (run [OTry KVec [65; 195; 169; 226; 130; 172]; OSplit 0 3]) in
+  inv s /\ src_ok (SSub 0 1 3) = true /\
+  nth_error (pool s) 1 = Some (mkview 1 0 3) /\ nth_error (pool s) 2 = Some (mkview 1 3 3) /\
+  nth_error (pool s) 0 = Some (mkview 1 0 6) /\
+  eval_src s (SSub 0 1 3) = SStr (Some (1, 1)%nat) [195; 169] /\
+  str_slice (bytes_of (heap s) (mkview 1 0 6)) 1 3 = Some [195; 169] /\
+  snd (step s (OSliceRef 1 (SSub 0 1 3))) = Made [[195; 169]] /\
+  snd (step s (OSliceRef 2 (SSub 0 1 3))) = Panicked.
+Proof. split; [apply run_inv; reflexivity|]. vm_compute. repeat split. Qed.
+
+(* "é" = bytes 1..3 of "Aé€" is valid, so 1 and 3 are boundaries; memory coherence for it *)
+Example C20_slice_converse_example :
+  valid [65; 195; 169; 226; 130; 172] = true /\ (1 + 2 <= length [65; 195; 169; 226; 130; 172])%nat /\
+  valid (firstn 2 (skipn 1 [65; 195; 169; 226; 130; 172])) = true /\
+  [195; 169] = firstn (length [195; 169]) (skipn (Z.to_nat 1) [65; 195; 169; 226; 130; 172]) /\
+  slice_ref [65; 195; 169; 226; 130; 172] 1 (length [195; 169]) = Some [195; 169].
+Proof. vm_compute. repeat split. repeat constructor. Qed.
+
+Example C20_cmp_trans_example :
+  cmp [65] [65; 195; 169] = Lt /\ cmp [65; 195; 169] [226; 130; 172] = Lt /\ cmp [65] [226; 130; 172] = Lt.
+Proof. vm_compute. repeat split. Qed.
+
+Example C20_hash_prefix_free_example :
+  valid [195; 169] = true /\ valid [] = true /\
+  hash_input [195; 169] ++ hash_input [] = [195; 169; 255; 255] /\
+  hash_input [] ++ hash_input [195; 169] = [255; 195; 169; 255].
+Proof. vm_compute. repeat split. Qed.
+
+Example C20_valid_app_example :
+  valid [195; 169] = true /\ valid [226; 130; 172] = true /\ valid ([195; 169] ++ [226; 130; 172]) = true /\
+  valid ([195] ++ [169]) = true /\ valid [195] = false.
+Proof. vm_compute. repeat split. Qed.
+
 Example C20_agree_example :
   cmp [65] [65; 195; 169] = Lt /\ cmp [195; 169] [90] = Gt /\ eq [195; 169] [195; 169] = true /\
   hash_input [195; 169] = [195; 169; 255].
